@@ -122,9 +122,36 @@ def assemble(pieces, sym):
     return (z3.Concat(*reversed(parts)) if len(parts) > 1 else parts[0]), total
 
 
+def gen_boundary(lane, total, ntok=16):
+    """Tokens whose lanes `lane` and `lane`+1 (mod 8, in both groups of 8) are matches of exactly `total` bits
+    (lit/len code + extra, distance code, distance extra bits); the other lanes are 5-bit literals.  The kernels switch
+    to their long-code path at per-lane thresholds (27..32 bits): every threshold is approached from both sides."""
+    toks, ll_len, d_len = [], {}, {}
+    for i in range(ntok):
+        if i % 8 in (lane, (lane + 1) % 8):
+            ld = 29 if total >= 20 else 8                  # distance symbol: 13 / 3 extra bits
+            ex = (1 << DIST_EXTRA[ld]) - 1
+            rest = total - DIST_EXTRA[ld]
+            b = min(15, max(1, rest - 15))                  # distance code length
+            a = rest - b                                    # lit/len code length incl. its extra bits (<= 20)
+            ll = 257 + 200 + (i % 8)
+            assert 1 <= a <= 20 and 1 <= b <= 15, (lane, total, a, b)
+            toks.append((ll, ld, ex))
+            ll_len[ll] = a
+            d_len[ld] = b
+        else:
+            ll = 40 + (i % 8)
+            toks.append((ll, NULL_DIST, 0))
+            ll_len[ll] = 5
+    return toks, ll_len, d_len
+
+
 def icf_one(var, func, img, exe, case, stats):
-    seed, ntok, maxlen, bitcnt, used, outlen = case
-    toks, ll_len, d_len = gen_case(seed, ntok, maxlen)
+    seed, ntok, maxlen, bitcnt, used, outlen = case[:6]
+    if len(case) > 6:       # boundary case: (lane, total bits)
+        toks, ll_len, d_len = gen_boundary(case[6], case[7], ntok)
+    else:
+        toks, ll_len, d_len = gen_case(seed, ntok, maxlen)
     rnd = random.Random(seed * 7 + 1)
     val = 0
     # translator validation (concrete code bits)
